@@ -256,6 +256,16 @@ def readN (env : Env) (name : String) : Int := env.num name
 /-- `fmt.Errorf(format, err)`: some error -/
 def errorf (format : String) (e : Option String) : Option String := some (format ++ (e.getD ""))
 
+/-- a read that returns an `error` (no step) -/
+def readE (env : Env) (name : String) : Option String := if env.fail name then some name else none
+/-- `crt, key, err := client.Sign(domains, preferredChain)`: what came back (a certificate? a key? an error?) is the oracle's -/
+def callSign (env : Env) (fx : Fx) : (Option Unit × Option Unit × Option String) × Fx :=
+  ((if env.val "Sign.crt" then some () else none, if env.val "Sign.key" then some () else none,
+    if env.fail "Sign" then some "Sign" else none), fx ++ ["Sign"])
+/-- `collector(domains, success)`: one of the three signing metrics -/
+def effMetric (name : String) (fx : Fx) (_domains : Unit) (success : Bool) : Fx :=
+  fx ++ ["metric:" ++ name ++ ":" ++ toString success]
+
 /-- `converters.converters` and the batch as `Sync` sees them -/
 structure ConvView where
   changedNil : Bool
